@@ -1334,7 +1334,17 @@ class SymStr:
         return bool(SymBool(z3.Or(alts))) if alts else False
 
     def __hash__(self):
-        raise Unsupported("hash of SymStr (symbolic dict/set key)")
+        # a symbolic string used as a dictionary / set key: fork over its (few) concrete values; the path condition
+        # then fixes the string, so later equality tests against it are decided
+        n = 1
+        for c in self.chars:
+            if not isinstance(c, str):
+                n *= len(c.alphabet())
+                if isinstance(c, HexChar) and all(not b.atoms for b in c.nib):
+                    n //= len(c.alphabet()) // 2
+        if n > 64:
+            raise Unsupported("hash of SymStr with too many possible values (symbolic dict/set key)")
+        return builtins.hash(concretize_str(self))
 
     def __bool__(self):
         return len(self.chars) > 0
@@ -1402,6 +1412,25 @@ class SymStr:
 
     def __repr__(self):
         return "SymStr(" + "".join(c if isinstance(c, str) else "?" for c in self.chars) + ")"
+
+
+def concretize_str(s):
+    """fork over the feasible concrete values of a SymStr; returns a Python str"""
+    out = []
+    for c in s.chars:
+        if isinstance(c, str):
+            out.append(c)
+            continue
+        for ch in c.alphabet():
+            t = z3.simplify(c.is_char(ch))
+            if z3.is_false(t):
+                continue
+            if z3.is_true(t) or bool(SymBool(t)):
+                out.append(ch)
+                break
+        else:
+            raise PathAbort("no character value feasible")
+    return "".join(out)
 
 
 def chars_of(o):
